@@ -26,6 +26,7 @@ import (
 	"sync"
 	"time"
 
+	"github.com/daeuniverse/dae/component/sniffing"
 	"github.com/daeuniverse/dae/control"
 	"github.com/daeuniverse/dae/verifx/vlib"
 )
@@ -238,19 +239,39 @@ func classify(s string) parsed {
 
 func canon(name string) string { return strings.TrimSuffix(strings.ToLower(name), ".") }
 
+// hist: what the history of the control plane did to the two kinds of knowledge (leg E).
+//
+//	dns: some seeding (names resolved through dae) happened; answers dae resolved are carried over a reload
+//	     together with the response cache it keeps serving them from, so they stay "resolved through dae".
+//	ver: 2 = the verification probes ran in the current generation; 1 = they ran only in an earlier generation
+//	     (a reload starts a new control plane: the statement does not say whether a verification outlives it => open);
+//	     0 = never.
+type hist struct {
+	dns bool
+	ver int
+}
+
+var histNow = hist{dns: true, ver: 2}
+
 // knowledge of a canonical name for a flow to dst: 2 = known by every reading of the statement,
-// 1 = some knowledge exists but the statement does not settle it (other address family only, or NODATA only), 0 = none.
-func knowledge(cn string, dst netip.Addr) int {
-	if verified[cn] || (dnsA[cn] && dnsAAAA[cn]) {
+// 1 = some knowledge exists but the statement does not settle it (other address family only, NODATA only, or
+// verified before a reload only), 0 = none.
+func knowledgeH(cn string, dst netip.Addr, h hist) int {
+	a, aaaa, nd := h.dns && dnsA[cn], h.dns && dnsAAAA[cn], h.dns && nodata[cn]
+	ver := 0
+	if verified[cn] {
+		ver = h.ver
+	}
+	if ver == 2 || (a && aaaa) {
 		return 2
 	}
-	if dst.Is4() && dnsA[cn] {
+	if dst.Is4() && a {
 		return 2
 	}
-	if dst.Is6() && !dst.Is4In6() && dnsAAAA[cn] {
+	if dst.Is6() && !dst.Is4In6() && aaaa {
 		return 2
 	}
-	if dnsA[cn] || dnsAAAA[cn] || nodata[cn] {
+	if a || aaaa || nd || ver == 1 {
 		return 1
 	}
 	return 0
@@ -268,6 +289,10 @@ const (
 
 // wantFor: the table of the statement. outbound = the outbound the flow finally uses.
 func wantFor(mode string, isBuiltin bool, dst netip.Addr, s string) want {
+	return wantForH(mode, isBuiltin, dst, s, histNow)
+}
+
+func wantForH(mode string, isBuiltin bool, dst netip.Addr, s string, h hist) want {
 	if mode == "ip" || s == "" || isBuiltin {
 		return wantIP
 	}
@@ -278,7 +303,7 @@ func wantFor(mode string, isBuiltin bool, dst netip.Addr, s string) want {
 	switch p.cls {
 	case clsName:
 		cn := canon(s)
-		switch knowledge(cn, dst) {
+		switch knowledgeH(cn, dst, h) {
 		case 2:
 			if s == cn {
 				return wantName
@@ -289,7 +314,7 @@ func wantFor(mode string, isBuiltin bool, dst netip.Addr, s string) want {
 		}
 		return wantIP
 	case clsNamePort:
-		if knowledge(canon(p.host), dst) > 0 {
+		if knowledgeH(canon(p.host), dst, h) > 0 {
 			return wantEither
 		}
 		return wantIP
@@ -510,7 +535,7 @@ func main() {
 	r.Set("strings_leg_B", len(stringsB))
 	r.Set("max_len_leg_A", lenA)
 	r.Set("max_len_leg_B", lenB)
-	r.Rule(fmt.Sprintf("full product of 4 dial modes x outbound index x dst {v4,v6,v4-mapped} x port {1,443,65535} x sniffed string, where the strings are a de-duplicated set of %d named forms plus every string of length<=%d (leg A: ChooseDialTarget) / <=%d (leg B: routeDial + chooseProxyDialer, tcp and udp) over {a . : [ ] 1}; leg A additionally sweeps all 256 outbound indices over the named forms; leg C runs, per (mode, outbound, dst, port), the 9 per-family probe outcomes {addr,nodata,error}^2 as flow 1 -> background verification probe -> flow 2 on a fresh name. A case is (leg, mode, outbound, dst, port, network, string); it is non-trivial when the string is non-empty; distinct_nontrivial is counted from the de-duplicated string set per distinct (leg, mode, outbound, dst, port, network) cell (cells are checked for uniqueness)", len(named), lenA, lenB))
+	r.Rule(fmt.Sprintf("full product of 4 dial modes x outbound index x dst {v4,v6,v4-mapped} x port {1,443,65535} x sniffed string, where the strings are a de-duplicated set of %d named forms plus every string of length<=%d (leg A: ChooseDialTarget) / <=%d (leg B: routeDial + chooseProxyDialer, tcp and udp) over {a . : [ ] 1}; leg A additionally sweeps all 256 outbound indices over the named forms; leg D sends every leg-A string as the Host field of an HTTP request through the real sniffer in front of ChooseDialTarget (2 outbounds); leg E runs the named forms after every history of length<=3 (quick) / <=4 (thorough) over {seed, reload-by-cache-replay, reload-by-store-reuse}; leg C runs, per (mode, outbound, dst, port), the 9 per-family probe outcomes {addr,nodata,error}^2 as flow 1 -> background verification probe -> flow 2 on a fresh name. A case is (leg, history, mode, outbound, dst, port, network, string); it is non-trivial when the string is non-empty; distinct_nontrivial is counted from the de-duplicated string set per distinct (leg, mode, outbound, dst, port, network) cell (cells are checked for uniqueness)", len(named), lenA, lenB))
 
 	evals := r.Counter("evaluations")
 	distinct := r.Counter("distinct_nontrivial")
@@ -899,6 +924,215 @@ func main() {
 		}
 	})
 
+	// ---------------- leg D: the sniffer's output path in front of ChooseDialTarget ----------------
+	// The value travels the way handleConn gets it: an HTTP request whose Host field is the raw value ->
+	// sniffing.Sniffer.SniffTcp (sniffGroup -> NormalizeDomain) -> a sniff error means "no name" -> ChooseDialTarget.
+	// Reference = the same table, applied to the value the client wrote (optional white space of the field removed).
+	type chunkD struct {
+		mode string
+		ob   uint8
+		dst  netip.AddrPort
+	}
+	var chunksD []chunkD
+	for _, m := range modes {
+		for _, o := range []uint8{2, 0} {
+			for _, d := range dsts {
+				for _, p := range ports {
+					chunksD = append(chunksD, chunkD{m, o, netip.AddrPortFrom(d.addr, p)})
+				}
+			}
+		}
+	}
+	r.Set("cells_leg_D", len(chunksD))
+	cSniffed := r.Counter("legD_sniffer_returned_a_name")
+	cSniffEmpty := r.Counter("legD_sniffer_returned_nothing")
+	r.ParallelFor(len(chunksD), func(i int) {
+		c := chunksD[i]
+		if r.OverBudget(120*time.Second, 10*time.Minute) {
+			r.CapHit("leg D time budget")
+			return
+		}
+		env := seedEnv(c.mode)
+		if env == nil {
+			return
+		}
+		defer env.Close()
+		for _, raw := range stringsA {
+			if strings.ContainsAny(raw, "\r\n") {
+				continue
+			}
+			evals.Add(1)
+			value := strings.TrimSpace(raw) // OWS around an HTTP field value is not part of the value
+			if value != "" {
+				distinct.Add(1)
+			}
+			sig := fmt.Sprintf("leg=D mode=%s ob=%d dst=%v host-field=%q", c.mode, c.ob, c.dst, raw)
+			var sniffed, target string
+			var dialIp bool
+			if p, msg := vlib.Try(func() {
+				sn := sniffing.NewPacketSniffer([]byte("GET / HTTP/1.1\r\nHost: "+raw+"\r\nAccept: */*\r\n\r\n"), time.Minute)
+				d, err := sn.SniffTcp()
+				_ = sn.Close()
+				if err != nil {
+					d = "" // handleConn: a sniffing error means no name
+				}
+				sniffed = d
+				target, _, dialIp = env.Choose(c.ob, c.dst, d)
+			}); p {
+				r.Violation(sig+" panic at "+vlib.PanicSite(msg), msg)
+				continue
+			}
+			if sniffed == "" {
+				cSniffEmpty.Add(1)
+			} else {
+				cSniffed.Add(1)
+			}
+			// Readings of "the sniffed value" that the statement allows here: the field value as written; the same
+			// DNS name in normalised spelling (lower case, no trailing dot: "1.2.3.4." is the literal 1.2.3.4); and,
+			// only when the written value is outside the classes the statement speaks about (not a name, not a
+			// literal, not host:valid-port — e.g. "name:" or "[name]"), the clean value the sniffer extracted from it.
+			cands := []string{value}
+			if cv := canon(value); cv != value && classify(value).cls == clsName {
+				cands = append(cands, cv)
+			}
+			if classify(value).cls == clsGarbage && sniffed != "" && classify(sniffed).cls != clsGarbage {
+				cands = append(cands, sniffed)
+			}
+			firstWhy := ""
+			for k, cand := range cands {
+				w := wantFor(c.mode, builtin(c.ob), c.dst.Addr(), cand)
+				if w == wantName && classify(cand).cls == clsName && canon(cand) == "" {
+					w = wantEither // "." and the like: an empty name after normalisation is "no name"
+				}
+				why := judgeW(w, c.mode, c.dst, cand, target, dialIp)
+				if why == "" {
+					firstWhy = ""
+					break
+				}
+				if k == 0 {
+					firstWhy = why
+				}
+			}
+			if firstWhy != "" && lim.ok("D-target|"+c.mode, 4) {
+				r.Violation(sig+fmt.Sprintf(" sniffer-output=%q got=%q dialIp=%v: %s", sniffed, target, dialIp, firstWhy),
+					map[string]any{"mode": c.mode, "outbound": c.ob, "dst": c.dst.String(), "host_field": raw, "sniffer_output": sniffed, "target": target, "dialIp": dialIp, "why": firstWhy})
+			}
+			outcomeKinds.Store(fmt.Sprintf("D|%s|builtin=%v|%s|sniffedEmpty=%v|tgtIsIP=%v", c.mode, builtin(c.ob), clsNames[classify(value).cls], sniffed == "", checkIPTarget(c.dst, target, true) == ""), true)
+		}
+	})
+
+	// ---------------- leg E: histories with reloads ----------------
+	// Every sequence of length <= maxHist over {S = names get resolved through dae / probed, Rr = reload that
+	// replays the cloned DNS cache into a fresh controller, Ru = reload that reuses the controller's store},
+	// then the named strings through ChooseDialTarget of the LAST generation.
+	maxHist := 3
+	if r.Thorough() {
+		maxHist = 4
+	}
+	var histories [][]string
+	var recH func(cur []string)
+	recH = func(cur []string) {
+		if len(cur) > 0 {
+			histories = append(histories, append([]string(nil), cur...))
+		}
+		if len(cur) == maxHist {
+			return
+		}
+		for _, op := range []string{"S", "Rr", "Ru"} {
+			recH(append(cur, op))
+		}
+	}
+	recH(nil)
+	type chunkE struct {
+		mode string
+		ob   uint8
+		dst  netip.AddrPort
+		h    []string
+	}
+	var chunksE []chunkE
+	for _, m := range modes {
+		for _, o := range []uint8{2, 0xFB, 0} {
+			for _, d := range dsts {
+				for _, h := range histories {
+					chunksE = append(chunksE, chunkE{m, o, netip.AddrPortFrom(d.addr, 443), h})
+				}
+			}
+		}
+	}
+	r.Set("cells_leg_E", len(chunksE))
+	r.Set("histories_leg_E", len(histories))
+	cReloads := r.Counter("legE_reloads_performed")
+	cKnownAfterReload := r.Counter("legE_name_dialled_because_resolved_before_a_reload")
+	r.ParallelFor(len(chunksE), func(i int) {
+		c := chunksE[i]
+		if r.OverBudget(130*time.Second, 11*time.Minute) {
+			r.CapHit("leg E time budget")
+			return
+		}
+		env, err := control.VerifC18NewEnv(c.mode, conf, []string{"g1", "g2"})
+		if err != nil {
+			r.Violation("harness: environment build failed: "+err.Error(), err.Error())
+			return
+		}
+		h := hist{}
+		reloaded := false
+		hs := strings.Join(c.h, ",")
+		for _, op := range c.h {
+			switch op {
+			case "S":
+				if err := seed(env); err != nil {
+					r.Violation("harness/production insert path failed: "+err.Error(), err.Error())
+					env.Close()
+					return
+				}
+				h.dns, h.ver = true, 2
+			default:
+				how := "restore"
+				if op == "Ru" {
+					how = "reuse"
+				}
+				var ne *control.VerifC18Env
+				var rerr error
+				if p, msg := vlib.Try(func() { ne, rerr = env.Reload(c.mode, conf, []string{"g1", "g2"}, how) }); p {
+					r.Violation(fmt.Sprintf("leg=E history=%s panic in reload (%s) at %s", hs, how, vlib.PanicSite(msg)), msg)
+					return
+				}
+				if rerr != nil {
+					r.Violation(fmt.Sprintf("leg=E history=%s reload (%s) failed: %v", hs, how, rerr), rerr.Error())
+					env.Close()
+					return
+				}
+				env = ne
+				cReloads.Add(1)
+				reloaded = true
+				if h.ver == 2 {
+					h.ver = 1
+				}
+			}
+		}
+		defer env.Close()
+		for _, s := range namedSet {
+			evals.Add(1)
+			if s != "" {
+				distinct.Add(1)
+			}
+			var target string
+			var dialIp bool
+			if p, msg := vlib.Try(func() { target, _, dialIp = env.Choose(c.ob, c.dst, s) }); p {
+				r.Violation(fmt.Sprintf("leg=E history=%s mode=%s ob=%d dst=%v sniffed=%q panic at %s", hs, c.mode, c.ob, c.dst, s, vlib.PanicSite(msg)), msg)
+				continue
+			}
+			w := wantForH(c.mode, builtin(c.ob), c.dst.Addr(), s, h)
+			if why := judgeW(w, c.mode, c.dst, s, target, dialIp); why != "" && lim.ok("E-target|"+c.mode, 6) {
+				r.Violation(fmt.Sprintf("leg=E history=%s mode=%s ob=%d dst=%v sniffed=%q got=%q dialIp=%v: %s", hs, c.mode, c.ob, c.dst, s, target, dialIp, why),
+					map[string]any{"history": c.h, "mode": c.mode, "outbound": c.ob, "dst": c.dst.String(), "sniffed": s, "target": target, "dialIp": dialIp, "why": why})
+			} else if why == "" && w == wantName && c.mode == "domain" && reloaded && c.h[len(c.h)-1] != "S" {
+				cKnownAfterReload.Add(1)
+			}
+			outcomeKinds.Store(fmt.Sprintf("E|%s|%s|builtin=%v|want=%d|tgtIsIP=%v", hs, c.mode, builtin(c.ob), w, checkIPTarget(c.dst, target, true) == ""), true)
+		}
+	})
+
 	nk := 0
 	outcomeKinds.Range(func(_, _ any) bool { nk++; return true })
 	r.Set("distinct_outcome_kinds", nk)
@@ -923,6 +1157,8 @@ func main() {
 	r.Assume("the statement demands re-routing only for domain++; it does not forbid it elsewhere, so a re-route in another mode (the code does it in domain mode for a known name) is counted (obs_domain_mode_known_name_rerouted) and the resulting group must then equal the reference route of that name, but it is not a violation")
 	r.Assume("'verified' is read as: the verification probe found an address for the name on at least one family. The resolver stub returns every per-family combination {address, no record, error} x {address, no record, error}; address on one family + error or no record on the other counts as verified (an address was found); no address at all (both empty, both failed, or the half-failed mixes error+no record) is NOT verified and must give the destination IP in domain mode — both for names probed up front and for the sequence flow 1 -> background probe -> flow 2 (leg C)")
 	r.Assume("leg C waits for the background probe by polling the stub's call counter and joining the probe's singleflight slot; the wall clock is used for that synchronisation only (a probe that never shows up within 60 s leaves flow 2 unjudged and clears 'exhaustive')")
+	r.Assume("leg D feeds the value as the Host field of an HTTP request through sniffing.Sniffer.SniffTcp (packet sniffer, i.e. the whole request is available at once; sniffGroup -> NormalizeDomain) and treats a sniffing error as 'no name' like handleConn does; the reference is applied to the field value as the client wrote it (surrounding white space removed); a value that is empty after removing the trailing dot counts as 'no name or that name'")
+	r.Assume("leg E: a reload is a new ControlPlane literal (fresh real-domain set and negative cache) whose DNS state is carried over either by cloneDnsCache + replayDnsReloadCache (RestoreReloadCache into a fresh DnsController) or by DnsController.ReuseForReload (shared store). Names resolved through dae before a reload remain 'resolved through dae' (dae keeps answering them from the carried cache): strict. Names only verified by the probe before a reload: open (both outcomes accepted)")
 	r.Assume("cells the statement leaves open accept both outcomes and are counted separately: case/trailing-dot variants of a known name, a known name that already carries a port, a name known only for the other address family or only by an empty (NODATA) answer — all in domain mode")
 	r.Assume("well-formedness of the target is demanded for sniffed values that are host names, IP literals (bare/bracketed) or host:port with a valid port; for other strings ('[', 'a]', 'a:', ':1' ...) only absence of panic and the IP cells are checked, malformed results are counted in obs_garbage_sniff_gives_malformed_target")
 	r.Assume("dialIp must be true when the target is the destination IP or a normalised bare/bracketed IP literal and false for a host name; for an IP literal that already carries a port the statement says nothing about the flag: counted in obs_ip_literal_with_port_dialIp_false")
